@@ -351,10 +351,14 @@ func Drive(cfg *Config, fn RunFn) int {
 		used := tape.Used()
 		class := out.V.Class
 		if out.V.Tags["nominimise"] == "1" {
-			// re-running would hang again: report the full tape as it is
+			// re-running would hang again, or the run used real sockets and a real clock: report the full tape as it is
 			rf := &ReplayFile{Prop: cfg.Prop, Engine: cfg.Engine, Scenario: cfg.Scenario, Seed: cfg.Seed, Run: run, Tier: cfg.Tier,
 				Tape: used, OrigLen: len(used), V: out.V, LogHash: out.LogHash, Tree: cfg.Tree, Opts: cfg.Opts}
-			path := fmt.Sprintf("%s/%s-%s-%d-%d-hang.json", cfg.ReplayDir, cfg.Prop, cfg.Scenario, cfg.Seed, run)
+			suffix := "asrun"
+			if strings.Contains(class, "hang") {
+				suffix = "hang"
+			}
+			path := fmt.Sprintf("%s/%s-%s-%d-%d-%s.json", cfg.ReplayDir, cfg.Prop, cfg.Scenario, cfg.Seed, run, suffix)
 			b, _ := json.MarshalIndent(rf, "", " ")
 			os.WriteFile(path, b, 0o644)
 			res.Violations = append(res.Violations, &ReplayRef{Path: path, V: out.V, Run: run})
